@@ -7,5 +7,6 @@ WT=/tmp/wt-seed-$$
 git -C /repo worktree add -q "$WT" HEAD || exit 2
 ( cd "$WT" && git apply "$P" ) || { echo "patch does not apply"; git -C /repo worktree remove --force "$WT"; exit 2; }
 cd /verif
-for s in $SEEDS; do VERIF_REPO="$WT" VERIF_SEED=$s timeout 1500 ./check "$C" 2>&1 | grep -v "^Warning: Point\|^spglib" | tail -2; done
+mkdir -p /tmp/seed-evidence
+for s in $SEEDS; do VERIF_EVIDENCE_DIR=/tmp/seed-evidence VERIF_REPO="$WT" VERIF_SEED=$s timeout 1500 ./check "$C" 2>&1 | grep -v "^Warning: Point\|^spglib" | tail -2; done
 git -C /repo worktree remove --force "$WT"
